@@ -70,6 +70,7 @@ structure Sys where
   vars : List Var                      -- `_variables` (creation order)
   eqs : List Equation                  -- `_equations` (dict order = order of setting)
   lastIdx : List (Nat × List Nat)      -- `assembled_equation_indices` (dict order)
+deriving DecidableEq, Repr
 
 /-! ### set_equation / remove_equation -/
 
@@ -348,7 +349,7 @@ structure Out where
   rows : List Row
   cols : List Nat
   resOnly : List Rat      -- the `evaluate_jacobian=False` result (empty otherwise)
-deriving Repr
+deriving DecidableEq, Repr
 
 def Out.A (o : Out) : List (List Rat) := o.rows.map (fun r => o.cols.map r.coef)
 def Out.b (o : Out) : List Rat := o.rows.map (fun r => - r.val)
@@ -423,6 +424,46 @@ def sliceIdx (ev : Nat → List Row) (sel : Equation → Option (Option (List Na
       | some r => (localIdx (ev e.name).length r).map (· + off))
     ++ sliceIdx ev sel es (off + (ev e.name).length)
 
+/-- the parsed row blocks a selection stands for: requested equations in the order of setting -/
+def blocksOf (sel : Equation → Option (Option (List Nat))) (es : List Equation) : Blocks :=
+  es.filterMap (fun e => (sel e).map (fun r => (e.name, r)))
+
+/-- full-system row numbers of the rows a request selects -/
+def rowIdx (sys : Sys) (ev : Nat → List Row) (req : Request) : List Nat :=
+  sliceIdx ev req.sel sys.eqs 0
+
+/-- dofs of one variable id (empty if the id is not registered) -/
+def dofRangeD (sys : Sys) (i : Nat) : List Nat := (dofRange (dofOrder sys) 0 i).getD []
+
+/-- the variable ids a `variables` argument stands for (`_parse_variable_type`;
+    `None` = all variables, the empty list = none) -/
+def requestedIds (sys : Sys) : Option (List VarItem) → Except Err (List Nat)
+  | none => .ok (sys.vars.map (·.id))
+  | some items => if items.isEmpty then .ok [] else parseVarItems sys items
+
+/-- histories of calls -/
+inductive Op where
+  | set (name : Nat) (grids : List GridId) (m : PerEntity)
+  | remove (name : Nat)
+  | assemble (ev : Nat → List Row) (jac : Bool) (req : Request) (vars : Option (List VarItem))
+
+/-- a failing `set_equation` / `remove_equation` leaves the system unchanged -/
+def applyOp (sys : Sys) : Op → Sys
+  | .set n gs m =>
+    match setEquation sys n gs m with
+    | .ok s => s
+    | .error _ => sys
+  | .remove n =>
+    match removeEquation sys n with
+    | .ok s => s
+    | .error _ => sys
+  | .assemble ev jac req vars => (assemble sys ev jac req vars).1
+
+def run (sys : Sys) (ops : List Op) : Sys := ops.foldl applyOp sys
+
+/-- `EquationSystem(mdg)` after the variables have been created -/
+def init (grids : List Grid) (vars : List Var) : Sys := ⟨grids, vars, [], []⟩
+
 /-- declared number of rows of an equation -/
 def Equation.total (e : Equation) : Nat := (e.image.flatMap (·.2)).length
 
@@ -437,6 +478,17 @@ def Sys.Inv (sys : Sys) : Prop :=
     this is the assumption under which restricted assembly is meaningful). -/
 def Consistent (sys : Sys) (ev : Nat → List Row) : Prop :=
   ∀ e ∈ sys.eqs, (ev e.name).length = e.total
+
+/-- Well-formed variable table (the DOF layout itself is property C05): distinct variable ids,
+    distinct grid ids, every variable lives on a grid of the md-grid. -/
+def Sys.VarsOk (sys : Sys) : Prop :=
+  (sys.vars.map (·.id)).Nodup ∧ (sys.grids.map (·.id)).Nodup ∧
+    ∀ v ∈ sys.vars, v.grid ∈ sys.grids.map (·.id)
+
+/-- the error of a result, if any (for stating concrete examples) -/
+def errOf : Except Err α → Option Err
+  | .error e => some e
+  | .ok _ => none
 
 /-! ### helpers for the driver -/
 
